@@ -156,7 +156,7 @@ def _guf_ensures(C, res):
 
 getUnalignedFragments = FunctionSpec(
     file=F, qualname='AlignmentResultRow.getUnalignedFragments', params=dict(self=ROW, queries=LIST(OMAP)), returns=LIST(OMAP),
-    requires=_guf_requires, ensures=_guf_ensures, serves=('C02', 'C10'),
+    requires=_guf_requires, ensures=_guf_ensures, serves=('C02', 'C10'), class_invariants=True,
     note="every fragment handed to the second pass carries the whole query's id and length, its positions are a slice query.positions[a:a+n] of the "
          "query found by id, and its shift is a - so label numbers and coordinates of second-pass records refer to the whole query; no exception "
          "(query lookup, list.index, slicing with Python's negative-index semantics)")
